@@ -37,11 +37,14 @@ def build_workflow(spec: dict[str, Any], wf_id: str = "W1"):
     for s in spec["stages"]:
         ctx = copy.deepcopy(s.get("ctx", {}))
         ctx["_v"] = {"tasks": copy.deepcopy(s["tasks"]), "before": s.get("before", 0), "after": s.get("after", 0)}
+        syn = s.get("syn") or {}
+        if syn and not syn.get("pre"):
+            ctx["_v"]["syn"] = copy.deepcopy(syn)
         if s.get("enabled") is not None:
             ctx["stageEnabled"] = s["enabled"]
         if s.get("cof"):
             ctx["continuePipelineOnFailure"] = True
-        if s.get("before") or s.get("after"):
+        if s.get("before") or s.get("after") or (syn and not syn.get("pre")):
             typ = "vsyn"
         elif s.get("built"):
             typ = "vb"
@@ -60,6 +63,22 @@ def build_workflow(spec: dict[str, Any], wf_id: str = "W1"):
         if not s.get("built"):
             se.tasks = make_task_models(s["tasks"], sid)
         stages.append(se)
+        if syn.get("pre"):
+            # children declared with the workflow itself (StageExecution.create_synthetic, as in the guide) instead of by a builder
+            from stabilize.models.stage import SyntheticStageOwner
+
+            for kind, owner in (("before", SyntheticStageOwner.STAGE_BEFORE), ("after", SyntheticStageOwner.STAGE_AFTER)):
+                prev = None
+                for i, b in enumerate(syn.get(kind) or []):
+                    ch = StageExecution.create_synthetic(type="v", name=f"{s['ref']}/{kind}{i}", parent=se, owner=owner,
+                                                         context={"_v": {"tasks": [{"b": b}]}})
+                    ch.id = f"{sid}-{kind}{i}"
+                    ch.ref_id = f"{s['ref']}/{kind}{i}"
+                    ch.tasks = make_task_models([{"b": b}], ch.id)
+                    if prev is not None and not syn.get("parallel"):
+                        ch.requisite_stage_ref_ids = {prev.ref_id}
+                    prev = ch
+                    stages.append(ch)
     wctx = {}
     if spec.get("max_jumps") is not None:
         wctx["_max_jumps"] = spec["max_jumps"]
@@ -122,10 +141,19 @@ def features(spec: dict[str, Any]) -> list[str]:
             f.add("mutex")
         if s.get("choice"):
             f.add("choice")
-        if s.get("before"):
+        syn = s.get("syn") or {}
+        if s.get("before") or syn.get("before"):
             f.add("before-child")
-        if s.get("after"):
+        if s.get("after") or syn.get("after"):
             f.add("after-child")
+        if syn.get("onfail"):
+            f.add("onfail-child")
+        if any(b == "fail" for k in ("before", "after", "onfail") for b in (syn.get(k) or [])):
+            f.add("failing-child")
+        if syn.get("pre"):
+            f.add("predeclared-child")
+        if syn.get("parallel") and max(len(syn.get(k) or []) for k in ("before", "after", "onfail")) > 1:
+            f.add("parallel-children")
         if s.get("built"):
             f.add("built-tasks")
         if s.get("reducers"):
